@@ -244,7 +244,14 @@ impl Scenario for Stream {
             _ => rng.log_range(1, max_n as u64) as usize,
         };
         // keep the product bounded so that a run stays in the millisecond range
-        let n = if big { n } else { n.min(400_000 / spec.m.max(1)).max(1) };
+        let mut n = if big { n } else { n.min(400_000 / spec.m.max(1)).max(1) };
+        let mut spec = spec;
+        if spec.kind.is_dens() && rng.chance(0.04) {
+            // sketch thousands of times larger than the stream: nearly every bin is filled by densification
+            n = rng.urange(1, 6);
+            let cap = ((2.0e7 * n as f64).sqrt() as u64).min(12_000);
+            spec.m = rng.log_range(1500, cap.max(1501)) as usize;
+        }
         let items = gen_items(rng, n, spec.elem);
         let mut events;
         if spec.kind.is_dens() {
